@@ -2262,7 +2262,14 @@ def _details_to_str(details, special=None):
         if content.content_type.type != "text":
             binary_attachments.append((key, content.content_type))
             continue
-        text = content.as_text().strip()
+        try:
+            text = content.as_text().strip()
+        except (UnicodeDecodeError, LookupError):
+            # Declared as text, but not in the declared charset (or in one
+            # we do not know): listed like binary content rather than
+            # losing the outcome to a decoding error.
+            binary_attachments.append((key, content.content_type))
+            continue
         if not text:
             empty_attachments.append(key)
             continue
